@@ -478,3 +478,92 @@ def translate_setattr():
         "def table : List SetattrCase := [\n" + rows + "\n]\n\nend TTGen.C11_Setattr\n"
     )
     return lean, ok, table
+
+
+# ------------------------------------------------------------------------------------------------
+# ELBO._call: which branch each (score, entropy, rank of the sample shape, last dimension == 1) takes
+# ------------------------------------------------------------------------------------------------
+def _elbo_cond(e, env):
+    """symbolic value (True / False / None) of a branch condition of ELBO._call"""
+    if _is_self_attr(e, "score"):
+        return env["score"]
+    if _is_self_attr(e, "entropy"):
+        return env["entropy"]
+    if isinstance(e, ast.Compare) and len(e.ops) == 1 and len(e.comparators) == 1 and isinstance(e.comparators[0], ast.Constant):
+        l, op, c = e.left, e.ops[0], e.comparators[0].value
+        val = None
+        if (isinstance(l, ast.Call) and isinstance(l.func, ast.Name) and l.func.id == "len" and len(l.args) == 1
+                and isinstance(l.args[0], ast.Name) and l.args[0].id == "samples"):
+            val = env["rank"]
+        elif (isinstance(l, ast.Subscript) and isinstance(l.value, ast.Name) and l.value.id == "samples"
+              and isinstance(l.slice, ast.UnaryOp) and isinstance(l.slice.op, ast.USub)
+              and isinstance(l.slice.operand, ast.Constant) and l.slice.operand.value == 1):
+            val = 1 if env["last1"] else 5  # "some K > 1"
+        if val is None or not isinstance(c, int):
+            return None
+        return {ast.Eq: val == c, ast.NotEq: val != c, ast.Gt: val > c, ast.GtE: val >= c, ast.Lt: val < c,
+                ast.LtE: val <= c}.get(type(op))
+    if isinstance(e, ast.BoolOp):
+        vs = [_elbo_cond(v, env) for v in e.values]
+        if any(v is None for v in vs):
+            return None
+        return all(vs) if isinstance(e.op, ast.And) else any(vs)
+    if isinstance(e, ast.UnaryOp) and isinstance(e.op, ast.Not):
+        v = _elbo_cond(e.operand, env)
+        return None if v is None else not v
+    return None
+
+
+def _elbo_block(stmts, env):
+    """the estimator the block computes: recognised by the reductions it contains"""
+    for st in stmts:
+        if isinstance(st, ast.If):
+            c = _elbo_cond(st.test, env)
+            if c is None:
+                return "unknown"
+            r = _elbo_block(st.body if c else st.orelse, env)
+            if r is not None:
+                return r
+            continue
+        src = ast.unparse(st)
+        if "logsumexp" in src:
+            return "multi"
+        if "entropy()" in src:
+            return "analytic"
+        if "cost * log_q" in src:
+            return "score"
+        if ".mean()" in src and "lp" in src.split("=")[0]:
+            return "mc"
+    return None
+
+
+def translate_elbo_branches():
+    """-> (lean source, ok, table [(score, entropy, rank, last1, branch)])"""
+    from torchtree.variational.kl import ELBO
+
+    table, ok, note = [], True, ""
+    try:
+        node = _fn_ast(ELBO.__dict__["_call"])
+        for score in (False, True):
+            for entropy in (False, True):
+                for rank in (1, 2):
+                    for last1 in (False, True):
+                        b = _elbo_block(node.body, {"score": score, "entropy": entropy, "rank": rank, "last1": last1})
+                        b = b or "unknown"
+                        ok = ok and b != "unknown"
+                        table.append((score, entropy, rank, last1, b))
+    except (Unrec, OSError, TypeError, SyntaxError, KeyError) as e:
+        ok, note = False, f"UNRECOGNISED {type(e).__name__}: {e}"
+        table = [(s_, e_, r_, l_, "unknown") for s_ in (False, True) for e_ in (False, True) for r_ in (1, 2) for l_ in (False, True)]
+    tf = lambda b: "true" if b else "false"  # noqa: E731
+    rows = ",\n".join(f"  ⟨{tf(s_)}, {tf(e_)}, {r_}, {tf(l_)}, .{b}⟩" for s_, e_, r_, l_, b in table)
+    lean = (
+        "import TTModel.C14_Protocol\n"
+        "/-! GENERATED by harness/translators/tr_wiring.py (translate_elbo_branches) by symbolic evaluation of the branch\n"
+        "    conditions of ELBO._call for score x entropy x rank of the sample shape x (last dimension = 1) — do not edit.\n"
+        f"    {note}\n-/\n"
+        "namespace TTGen.C14_Branch\nopen TT.C14\n\n"
+        f"def translatorOk : Bool := {tf(ok)}\n\n"
+        "def table : List ElboCase := [\n" + rows + "\n]\n\nend TTGen.C14_Branch\n"
+    )
+    return lean, ok, table
